@@ -1,2 +1,6 @@
 import TaskModel.Resolve.Glob
 import TaskModel.Load.RootRef
+import TaskModel.Load.MergeInvariant
+import TaskModel.Load.SortLemmas
+import TaskModel.Load.VarsLemmas
+import TaskModel.Load.Sites
